@@ -53,8 +53,8 @@ type batOpts struct {
 	stopMidP    float64 // stop somewhere in the middle and keep calling the API afterwards
 	startLateP  float64 // some calls before Start
 	setterP     float64
-	horizonMin  int64 // keep running at least this long before the final stop
-	lateOnly    bool  // with a never-returning callback present, allow the tail to be long
+	horizonMin  int64   // keep running at least this long before the final stop
+	lateOnly    bool    // with a never-returning callback present, allow the tail to be long
 	busyFDs     []int64 // how long a listener keeps the loop busy inside flush-done (v2)
 	busyAudits  []int64 // ... inside the audit events
 }
